@@ -5,6 +5,35 @@ V = os.path.dirname(os.path.dirname(os.path.abspath(__file__)))
 
 # id -> (engine, level category, technique, level text, level note, design ref)
 CLAIMED = {
+ "C03": ("E-TAB", "other", "syntax-tree table extraction: COVER / NOWILD / IMPLIES / SPEC rules over all InstOp and FuelVmInstruction variants",
+         "Decides that the per-instruction tables every IR pass is built on (operand enumeration/rewriting, side-effect, terminator, "
+         "memory read/write, CSE keys, fn-dedup hashing, inliner cloning, pass registry) are complete and mutually consistent for all "
+         "47 instruction variants; a necessary condition of pass soundness, not the passes' algorithms.",
+         "Trusted: syn; spec/ir_effects.txt written from instruction.rs doc comments; three reviewed exceptions named in rules/C03.py.",
+         "DESIGN.md §3 C03"),
+ "C05": ("E-TAB", "other", "writer/reader agreement: printer match tables vs peg grammar (keyword inverse, field coverage, ordered-choice shadowing, capture use)",
+         "Decides that for every compiler-producible instruction the IR printer emits every field unconditionally under a mnemonic that "
+         "leads an un-shadowed alternative of the grammar, keyword tables are inverse, and grammar captures reach the AST. Necessary for "
+         "round-tripping; identical re-print and behaviour after reparse are not decided.",
+         "Trusted: syn; rust-peg ordered-choice semantics. Non-producible instructions/registers are advisory only.",
+         "DESIGN.md §3 C05"),
+ "C06": ("E-MIR+E-TAB", "other", "MIR partial-arithmetic site enumeration + evaluator-table SPEC + CFG path rule on const-fn argument binding",
+         "Decides: no unreviewed panicking/wrapping arithmetic in the compile-time evaluation files; each (operator, value kind) uses the "
+         "evaluator that returns no constant exactly when run time reverts; const-fn application evaluates arguments in the caller's "
+         "environment and unbinds parameters on all paths. Aggregates/casts are not decided.",
+         "Trusted: rustc MIR, syn, u64::checked_* and num-bigint semantics, spec/const_ops.txt, spec/c06_sites.txt.",
+         "DESIGN.md §3 C06"),
+ "C07": ("E-TAB", "other", "SPEC check of the transform_operator! rewrite table against identities valid for every operand value",
+         "Decides that every algebraic rewrite and fold the abstract-instruction constant propagator can apply is valid for all values of "
+         "the unknown operand (definedness included) and uses the VM-agreeing evaluator. The optimizers' dataflow is not decided.",
+         "Trusted: syn; spec/asm_identities.txt written from fuel-asm/fuel-vm 0.66 sources.",
+         "DESIGN.md §3 C07"),
+ "C22": ("E-MIR", "proof", "MIR value-provenance: returned order == toposort(Reversed(graph)).map_err(..); edge-direction provenance at every add/update_edge; forward-only consumers",
+         "With petgraph's toposort contract the checked facts imply the stated property for every graph: each package once, dependencies "
+         "first, Err on any cycle. All obligations must be discharged.",
+         "Trusted: petgraph::algo::toposort contract; rustc MIR. Consumers outside forc-pkg/forc-test/sway-lsp are not analysed.",
+         "DESIGN.md §3 C22"),
+
  "C21": ("E-MIR", "proof", "MIR call-graph cone + panic-site enumeration with dominator-checked guard idioms",
          "Every potentially panicking MIR construct reachable from Lock::from_path / Lock::to_graph / source::Pinned::from_str "
          "is enumerated on each run and must be discharged by a machine-checked idiom or a reviewed, exactly keyed site; "
